@@ -1,5 +1,5 @@
 (* Extraction of the C15 model (ExtrOcamlBasic only; N/Z/nat stay Coq datatypes). *)
-From Verif Require Import LinePPInst LinePPOrder.
+From Verif Require Import LinePPInst LinePPOrder LinePPRejoinThm.
 Require Extraction ExtrOcamlBasic.
 Extraction Language OCaml.
-Extraction "model.ml" write_builtin pp LimitEmptyLines_init linewise pipe_step handle_pps pk to_pps.
+Extraction "model.ml" write_builtin pp LimitEmptyLines_init linewise pipe_step handle_pps pk to_pps copy_header py_lines.
